@@ -127,6 +127,15 @@ def synthetic_shapes():
     S["same_offset_type_change"] = mk_tzif(
         [(T0, 1), (T0 + 100 * d, 2), (T0 + 200 * d, 0), (T0 + 300 * d, 3), (T0 + 400 * d, 0)],
         [(H, 0, "CET"), (H, 0, "MEZ"), (H, 1, "WEST"), (2 * H, 1, "CEST")])
+    # standard-offset set-backs in a table with NO isdst=1 record at all (Europe/Moscow 2014, America/Caracas 2007 style):
+    # the repeated hour exists although nothing in the file is "daylight" -- fold must come from the tables, not from dst()
+    S["std_setback_no_dst_record"] = mk_tzif(
+        [(T0, 1), (T0 + 200 * d, 0), (T0 + 400 * d, 2), (T0 + 600 * d, 1)],
+        [(4 * H, 0, "MSK"), (3 * H, 0, "MSK"), (4 * H + 1800, 0, "VET")])
+    # negative DST whose winter type also changes the base offset later (Dublin 1968-71 style), half-hour amounts
+    S["negative_dst_half_hour"] = mk_tzif(
+        [(T0, 1), (T0 + 150 * d, 0), (T0 + 365 * d, 2), (T0 + 515 * d, 0), (T0 + 730 * d, 1)],
+        [(H, 0, "IST"), (0, 1, "GMT"), (1800, 1, "HMT")])
     S["single_type"] = mk_tzif([(T0, 0), (T0 + 100 * d, 0), (T0 + 200 * d, 0)], [(19800, 0, "IST")])
     S["single_type_dst"] = mk_tzif([(T0, 0), (T0 + 100 * d, 0)], [(H, 1, "XDT")])
     S["no_transitions"] = mk_tzif([], [(-7 * H, 0, "MST")])
